@@ -1,8 +1,310 @@
-//! engine `decomp` (stub: to be filled in)
-use crate::util::Tr;
+//! C05: stabiliser decomposition.  (1) single steps through the guarded re-export of
+//! apply_decomp, (2) complete runs of the Decomposer for the whole configuration grid
+//! (driver x simplification x component splitting x sequential / parallel with several pool
+//! sizes), (3) the terms saved for diagrams with open wires.  TLC (mc/Trace_Decomp) decides
+//! everything with the specification's denotation.
+
+use crate::absg::{abs, build, sc_json};
+use crate::gens::{mk, AV};
+use crate::util::{arg_num, guarded, Tr};
+use quizx::decompose::*;
+use quizx::graph::*;
+use quizx::vec_graph::Graph;
+use rand::rngs::StdRng;
+use rand::Rng;
 use serde_json::{json, Value};
 
-#[allow(unused_variables)]
+/// random graph-like host: nt T-like spiders, nc Clifford spiders, H edges, nb outputs
+pub fn host(r: &mut StdRng, nt: usize, nc: usize, nb: usize, pedge: f64, cat: bool) -> Value {
+    let mut vs = vec![];
+    let mut es: Vec<(usize, usize, &str)> = vec![];
+    let n = nt + nc;
+    for i in 0..n {
+        let ph = if i < nt { [1, 3, 5, 7][r.random_range(0..4)] } else { [0, 2, 4, 6][r.random_range(0..4)] };
+        vs.push(AV { id: i + 1, ty: "Z", ph, vars: vec![] });
+    }
+    for i in 0..n {
+        for j in (i + 1)..n {
+            if r.random_bool(pedge) {
+                es.push((i + 1, j + 1, "H"));
+            }
+        }
+    }
+    let mut next = n + 1;
+    if cat && nt >= 3 {
+        // a hub with Pauli phase H-connected to k of the T spiders and nothing else
+        let k = r.random_range(3..=nt.min(6));
+        let hub = next;
+        next += 1;
+        vs.push(AV { id: hub, ty: "Z", ph: if r.random_bool(0.5) { 0 } else { 4 }, vars: vec![] });
+        let mut ts: Vec<usize> = (1..=nt).collect();
+        for i in (1..ts.len()).rev() {
+            ts.swap(i, r.random_range(0..=i));
+        }
+        for &t in &ts[..k] {
+            es.push((hub, t, "H"));
+        }
+    }
+    let mut outs = vec![];
+    for _ in 0..nb {
+        let b = next;
+        next += 1;
+        vs.push(AV { id: b, ty: "B", ph: 0, vars: vec![] });
+        es.push((r.random_range(1..=n), b, if r.random_bool(0.7) { "N" } else { "H" }));
+        outs.push(b);
+    }
+    mk(&vs, &es, &[], &outs, [1, 0, 0, 0, 0])
+}
+
+fn decomp_json(d: &Decomp) -> Value {
+    let (k, v) = match d {
+        Decomp::CatDecomp(v) => ("CatDecomp", v),
+        Decomp::Magic5FromCat(v) => ("Magic5FromCat", v),
+        Decomp::TDecomp(v) => ("TDecomp", v),
+        Decomp::BssDecomp(v) => ("BssDecomp", v),
+        Decomp::SymDecomp(v) => ("SymDecomp", v),
+        Decomp::SingleDecomp(v) => ("SingleDecomp", v),
+        Decomp::SpiderCuttingDecomp(v) => ("SpiderCuttingDecomp", v),
+        Decomp::TPairDecomp(v) => ("TPairDecomp", v),
+    };
+    json!({"kind": k, "vs": v})
+}
+
+fn step(g: &Graph, d: &Decomp, via: &str) -> Value {
+    match guarded(|| verif_apply_decomp(g, d)) {
+        Err(m) => json!({"k": "step", "decomp": decomp_json(d), "via": via, "res": "panic", "msg": m}),
+        Ok(ts) => json!({"k": "step", "decomp": decomp_json(d), "via": via, "res": "ok", "terms": ts.iter().map(abs).collect::<Vec<_>>()}),
+    }
+}
+
+pub fn record_steps(a: &Value, tr: &mut Tr, r: &mut StdRng, counts: &mut std::collections::BTreeMap<String, usize>) {
+    let g: Graph = build(a);
+    if g.tcount() == 0 {
+        return;
+    }
+    tr.group();
+    tr.emit(json!({"k": "reset", "pre": a}));
+    let closed = g.inputs().is_empty() && g.outputs().is_empty();
+    let mut ds: Vec<(Decomp, String)> = vec![];
+    // what each driver would choose on this very diagram
+    ds.push((BssTOnlyDriver { random_t: false }.choose_decomp(&g), "driver:BssTOnly".into()));
+    ds.push((BssTOnlyDriver { random_t: true }.choose_decomp(&g), "driver:BssTOnly_random".into()));
+    ds.push((BssWithCatsDriver { random_t: false }.choose_decomp(&g), "driver:BssWithCats".into()));
+    ds.push((BssWithCatsDriver { random_t: true }.choose_decomp(&g), "driver:BssWithCats_random".into()));
+    if closed {
+        for (d, n) in [
+            (guarded(|| DynamicTDriver.choose_decomp(&g)), "driver:DynamicT"),
+            (guarded(|| SherlockDriver { tries: vec![2, 2, 2] }.choose_decomp(&g)), "driver:Sherlock"),
+            (guarded(|| SpiderCuttingDriver.choose_decomp(&g)), "driver:SpiderCutting"),
+        ] {
+            if let Ok(d) = d {
+                ds.push((d, n.into()));
+            }
+        }
+    }
+    // explicit argument lists
+    let ts = first_ts(&g);
+    if !ts.is_empty() {
+        ds.push((Decomp::SingleDecomp(vec![ts[r.random_range(0..ts.len())]]), "explicit".into()));
+    }
+    if ts.len() >= 2 {
+        let i = r.random_range(0..ts.len());
+        let j = (i + 1 + r.random_range(0..ts.len() - 1)) % ts.len();
+        ds.push((Decomp::SymDecomp(vec![ts[i], ts[j]]), "explicit".into()));
+    }
+    if ts.len() >= 5 {
+        ds.push((Decomp::Magic5FromCat(ts[..5].to_vec()), "explicit".into()));
+    }
+    if ts.len() >= 6 {
+        ds.push((Decomp::BssDecomp(ts[..6].to_vec()), "explicit".into()));
+    }
+    let cats = cat_ts(&g);
+    if cats.len() > 3 {
+        ds.push((Decomp::CatDecomp(cats), "explicit".into()));
+    }
+    for (d, via) in ds {
+        *counts.entry(decomp_json(&d)["kind"].as_str().unwrap().to_string()).or_insert(0) += 1;
+        tr.emit(step(&g, &d, &via));
+    }
+}
+
+fn run_cfg(g: &Graph, driver: &str, simp: SimpFunc, split: bool, threads: usize, save: bool) -> Result<(quizx::scalar::Scalar4, usize, Vec<Graph>), String> {
+    guarded(|| {
+        let mut d = Decomposer::new(g);
+        d.with_simp(simp).with_split_graphs_components(split).with_save(save);
+        macro_rules! go {
+            ($drv:expr) => {{
+                let drv = $drv;
+                if threads == 0 {
+                    d.decompose(&drv);
+                } else {
+                    let pool = rayon::ThreadPoolBuilder::new().num_threads(threads).build().unwrap();
+                    pool.install(|| {
+                        d.decompose_parallel(&drv);
+                    });
+                }
+            }};
+        }
+        match driver {
+            "BssTOnly" => go!(BssTOnlyDriver { random_t: false }),
+            "BssTOnly_random" => go!(BssTOnlyDriver { random_t: true }),
+            "BssWithCats" => go!(BssWithCatsDriver { random_t: false }),
+            "BssWithCats_random" => go!(BssWithCatsDriver { random_t: true }),
+            "DynamicT" => go!(DynamicTDriver),
+            "Sherlock" => go!(SherlockDriver { tries: vec![2, 2, 2] }),
+            "SpiderCutting" => go!(SpiderCuttingDriver),
+            _ => panic!("driver"),
+        }
+        (d.scalar(), d.nterms, d.done.clone())
+    })
+}
+
+const DRIVERS: [&str; 7] = ["BssTOnly", "BssTOnly_random", "BssWithCats", "BssWithCats_random", "DynamicT", "Sherlock", "SpiderCutting"];
+fn simp_name(s: SimpFunc) -> &'static str {
+    match s {
+        SimpFunc::FullSimp => "full",
+        SimpFunc::CliffordSimp => "clifford",
+        SimpFunc::NoSimp => "none",
+    }
+}
+
+pub fn record_runs(a: &Value, tr: &mut Tr, r: &mut StdRng, all_threads: bool) -> usize {
+    let g: Graph = build(a);
+    tr.group();
+    tr.emit(json!({"k": "reset", "pre": a}));
+    let mut n = 0;
+    for drv in DRIVERS {
+        for simp in [SimpFunc::NoSimp, SimpFunc::CliffordSimp, SimpFunc::FullSimp] {
+            for split in [false, true] {
+                let mut ths = vec![0usize, [1, 2, 3, 4, 8, 16][r.random_range(0..6)]];
+                if all_threads {
+                    ths = vec![0, 1, 2, 3, 4, 8, 16];
+                }
+                for threads in ths {
+                    let res = crate::eng_simp::with_watchdog(60, {
+                        let (g, drv) = (g.clone(), drv.to_string());
+                        move || run_cfg(&g, &drv, simp, split, threads, false)
+                    });
+                    let mut e = json!({"k": "run", "driver": drv, "simp": simp_name(simp), "split": split, "par": threads > 0, "threads": threads});
+                    match res {
+                        None => e["res"] = json!("timeout"),
+                        Some(Err(m)) => {
+                            e["res"] = json!("panic");
+                            e["msg"] = json!(m);
+                        }
+                        Some(Ok((s, nterms, _))) => {
+                            e["res"] = json!("ok");
+                            e["scalar"] = sc_json(&s);
+                            e["approx"] = json!(crate::absg::sc_is_approx(&s));
+                            e["nterms"] = json!(nterms);
+                        }
+                    }
+                    tr.emit(e);
+                    n += 1;
+                }
+            }
+        }
+    }
+    n
+}
+
+pub fn record_saved(a: &Value, tr: &mut Tr) -> usize {
+    let g: Graph = build(a);
+    tr.group();
+    tr.emit(json!({"k": "reset", "pre": a}));
+    let mut n = 0;
+    for drv in ["BssTOnly", "BssTOnly_random", "BssWithCats", "BssWithCats_random"] {
+        for simp in [SimpFunc::NoSimp, SimpFunc::CliffordSimp, SimpFunc::FullSimp] {
+            let mut e = json!({"k": "saved", "driver": drv, "simp": simp_name(simp)});
+            match run_cfg(&g, drv, simp, false, 0, true) {
+                Err(m) => {
+                    e["res"] = json!("panic");
+                    e["msg"] = json!(m);
+                }
+                Ok((_, nterms, done)) => {
+                    e["res"] = json!("ok");
+                    e["nterms"] = json!(nterms);
+                    e["terms"] = json!(done.iter().map(abs).collect::<Vec<_>>());
+                }
+            }
+            tr.emit(e);
+            n += 1;
+        }
+    }
+    n
+}
+
 pub fn record(args: &[String], seed: u64, tr: &mut Tr) -> Value {
-    json!({"stub": true})
+    let mut r = crate::gens::rng(seed);
+    let nsteps: usize = arg_num(args, "--steps", 0);
+    let nruns: usize = arg_num(args, "--runs", 0);
+    let nsaved: usize = arg_num(args, "--saved", 0);
+    let ncirc: usize = arg_num(args, "--circuits", 0);
+    let maxt: usize = arg_num(args, "--maxt", 6);
+    let all_threads = crate::util::arg_flag(args, "--all-threads");
+    let mut counts = Default::default();
+    for i in 0..nsteps {
+        let nt = 1 + i % maxt;
+        let nb = if i % 3 == 0 { r.random_range(1..=2) } else { 0 };
+        let nc = r.random_range(0..=2);
+        let a = host(&mut r, nt, nc, nb, 0.4, i % 2 == 0);
+        record_steps(&a, tr, &mut r, &mut counts);
+    }
+    let mut runs = 0;
+    for i in 0..nruns {
+        let nt = 1 + i % maxt.min(7);
+        let nc = r.random_range(0..=3);
+        let a = host(&mut r, nt, nc, 0, 0.45, i % 2 == 0);
+        runs += record_runs(&a, tr, &mut r, all_threads);
+    }
+    // closed diagrams from Clifford+T circuits with basis states plugged in
+    for _ in 0..ncirc {
+        let q = r.random_range(2..=3usize);
+        let c = quizx::circuit::Circuit::random().seed(r.random()).qubits(q).depth(r.random_range(4..14)).clifford_t(0.3).build();
+        let mut g: Graph = c.to_graph();
+        let ins: Vec<BasisElem> = (0..q).map(|_| [BasisElem::Z0, BasisElem::Z1, BasisElem::X0][r.random_range(0..3)]).collect();
+        let outs: Vec<BasisElem> = (0..q).map(|_| [BasisElem::Z0, BasisElem::Z1, BasisElem::X1][r.random_range(0..3)]).collect();
+        g.plug_inputs(&ins);
+        g.plug_outputs(&outs);
+        if g.tcount() > 7 || g.num_vertices() > 40 {
+            continue;
+        }
+        let a = abs(&g);
+        // without a simplifier the drivers need graph-like input: only the simplifying configurations are run
+        tr.group();
+        tr.emit(json!({"k": "reset", "pre": a}));
+        for drv in DRIVERS {
+            for simp in [SimpFunc::CliffordSimp, SimpFunc::FullSimp] {
+                let threads = [0usize, 2, 4][r.random_range(0..3)];
+                let res = crate::eng_simp::with_watchdog(60, {
+                    let (g, drv) = (g.clone(), drv.to_string());
+                    move || run_cfg(&g, &drv, simp, true, threads, false)
+                });
+                let mut e = json!({"k": "run", "driver": drv, "simp": simp_name(simp), "split": true, "par": threads > 0, "threads": threads, "from": "circuit"});
+                match res {
+                    None => e["res"] = json!("timeout"),
+                    Some(Err(m)) => {
+                        e["res"] = json!("panic");
+                        e["msg"] = json!(m);
+                    }
+                    Some(Ok((s, nterms, _))) => {
+                        e["res"] = json!("ok");
+                        e["scalar"] = sc_json(&s);
+                        e["approx"] = json!(crate::absg::sc_is_approx(&s));
+                        e["nterms"] = json!(nterms);
+                    }
+                }
+                tr.emit(e);
+                runs += 1;
+            }
+        }
+    }
+    let mut saved = 0;
+    for i in 0..nsaved {
+        let nt = 1 + i % maxt.min(6);
+        let (nc, nb) = (r.random_range(0..=2), r.random_range(1..=2));
+        let a = host(&mut r, nt, nc, nb, 0.4, i % 2 == 0);
+        saved += record_saved(&a, tr);
+    }
+    json!({"step_hosts": nsteps, "step_kinds": counts, "runs": runs, "saved_runs": saved})
 }
